@@ -48,6 +48,19 @@ def _solve_one(ob, timeout_ms, seed):
     last = {"verdict": "unknown", "reason": "portfolio exhausted"}
     portfolio = PORTFOLIO
     ground = not _has_quantifier(ob.hyps + [ob.goal])
+    if not ground and not _has_quantifier([ob.goal]):
+        # a quantifier-free goal (typically a peeled last element): try it from the quantifier-free hypotheses alone, with the
+        # native string solver - dropping hypotheses is sound for proving
+        gh = [h for h in ob.hyps if not _has_quantifier([h])]
+        for depth, share in ((0, 0.15), (2, 0.15)):
+            rel = _relevant(gh, ob.goal, depth)
+            s = z3.Solver()
+            s.set("timeout", max(1000, int(timeout_ms * share)))
+            for h in rel:
+                s.add(h)
+            s.add(z3.Not(ob.goal))
+            if s.check() == z3.unsat:
+                return {"verdict": "proved", "time": time.time() - t_start, "backend": f"z3 (quantifier-free hypotheses, cone depth {depth})"}
     if ground:
         # cone of influence: hypotheses that (transitively) share a constant with the goal; fewer hypotheses can only
         # make proving harder, never unsound - a `sat` answer of the reduced query is ignored
